@@ -298,7 +298,8 @@ class SliceTime(Contract):
         tf.attrs.update(dimensions=('TSTEP', 'VAR', 'DATE-TIME'), _ncattrs=('units',), units='<YYYYDDD,HHMMSS>')
         dv = sym_array('O3', (nt, ny), 'f')
         dv.cls = cls
-        dv.attrs.update(dimensions=('TSTEP', 'ROW'), _ncattrs=('units',), units='ppm')
+        # attributes that are NOT what the IOAPI createVariable would fill in by itself (padded key / blank description)
+        dv.attrs.update(dimensions=('TSTEP', 'ROW'), _ncattrs=('units', 'long_name', 'var_desc'), units='ppm', long_name='Ozone', var_desc='ozone, not padded')
         self.tf, self.dv = tf, dv
         self.pre = (tf.buf.get, dv.buf.get)
         dims = {'TSTEP': dim_obj(I, 'TSTEP', nt, unlimited=True), 'VAR': dim_obj(I, 'VAR', nv), 'DATE-TIME': dim_obj(I, 'DATE-TIME', 2), 'ROW': dim_obj(I, 'ROW', ny)}
@@ -379,6 +380,13 @@ class SliceTime(Contract):
                 ('source-unchanged', Implies(And(ge(i, 0), lt(i, self.nt), ge(v, 0), lt(v, self.nv)),
                                              And(eq(self.tf.buf.get((i, v, 0)), self.pre[0]((i, v, 0))), eq(self.tf.buf.get((i, v, 1)), self.pre[0]((i, v, 1))))))]
 
+
+    def attr_clause(self, res):
+        """(a C02 clause, used by contracts/C02.py on the same run of the wrapper) attributes of the data variable carried over"""
+        D = res.attrs['variables'].get('O3') if isinstance(res, Obj) and 'variables' in res.attrs else None
+        ok = isinstance(D, SArr) and all(D.attrs.get(k) == w for k, w in (('units', 'ppm'), ('long_name', 'Ozone'), ('var_desc', 'ozone, not padded'))) \
+            and sorted(D.attrs.get('_ncattrs', ())) == ['long_name', 'units', 'var_desc']
+        return ('variable attributes of the result are the source values (not the defaults of the IOAPI constructor)', ok)
 
     def on_raise(self, inp, exc, I):
         # an invalid time flag makes getTimes raise; nothing else may
